@@ -39,7 +39,7 @@ pub fn simple_world(rng: &mut Rng, reg: &Reg, pool: &[&Entry], n: usize, custom_
             let args = gen_args(rng, h.args, &pool_a, None);
             (
                 Doc::json(&Value::Object(args.clone())),
-                Some(Intent { hid: h.id(), args: Value::Object(args) }),
+                Some(Intent { hid: h.id(), args: Value::Object(args), cid: String::new() }),
             )
         };
         setup.push(Op::Instantiate {
@@ -59,6 +59,11 @@ pub fn simple_world(rng: &mut Rng, reg: &Reg, pool: &[&Entry], n: usize, custom_
 pub struct TrafficGen<'a> {
     pub sg: ScriptGen<'a>,
     pub codes: &'a [Code],
+    /// allow migrations to other programs (the generator then tracks who lives where, assuming
+    /// admin-sent, failure-free migrations succeed; intents carry the program they were built for,
+    /// so a wrong assumption only loses the explicit intent of later operations)
+    pub cross_migrate: bool,
+    pub model: Vec<(String, String)>,
 }
 
 impl<'a> TrafficGen<'a> {
@@ -72,7 +77,10 @@ impl<'a> TrafficGen<'a> {
 
     /// one spec-built operation against a random contract
     pub fn op(&mut self, rng: &mut Rng) -> Option<Op> {
-        let c = rng.pick(self.sg.contracts).clone();
+        let mut c = rng.pick(self.sg.contracts).clone();
+        if let Some((_, cid)) = self.model.iter().find(|(a, _)| *a == c.addr) {
+            c.cid = cid.clone();
+        }
         let accounts = self.sg.accounts;
         match rng.below(20) {
             0..=8 => {
@@ -92,7 +100,7 @@ impl<'a> TrafficGen<'a> {
                     sender: rng.pick(accounts).clone(),
                     msg: Doc::json(&doc_for(h, &args)),
                     funds,
-                    intent: Some(Intent { hid: h.id(), args: Value::Object(args) }),
+                    intent: Some(Intent { hid: h.id(), args: Value::Object(args), cid: c.cid.clone() }),
                 })
             }
             9..=12 => {
@@ -105,7 +113,7 @@ impl<'a> TrafficGen<'a> {
                 Some(Op::Query {
                     target: c.addr.clone(),
                     msg: Doc::json(&doc_for(h, &args)),
-                    intent: Some(Intent { hid: h.id(), args: Value::Object(args) }),
+                    intent: Some(Intent { hid: h.id(), args: Value::Object(args), cid: c.cid.clone() }),
                 })
             }
             13..=15 => {
@@ -118,28 +126,49 @@ impl<'a> TrafficGen<'a> {
                 Some(Op::Sudo {
                     target: c.addr.clone(),
                     msg: Doc::json(&doc_for(h, &args)),
-                    intent: Some(Intent { hid: h.id(), args: Value::Object(args) }),
+                    intent: Some(Intent { hid: h.id(), args: Value::Object(args), cid: c.cid.clone() }),
                 })
             }
             16 => {
-                // migrate to a stored code of the same program (admin or not)
-                let hs = self.handlers(&c, Kind::Migrate);
-                if hs.is_empty() {
+                // code replacement: to a stored code of the same program, or (cross_migrate) of another
+                let candidates: Vec<usize> = self
+                    .codes
+                    .iter()
+                    .enumerate()
+                    .filter(|(_, k)| self.cross_migrate || k.cid == c.cid)
+                    .filter(|(_, k)| self.sg.reg.get(&k.cid).map(|e| e.spec.of_kind(Kind::Migrate).next().is_some() && !e.spec.overrides.contains(&Kind::Migrate)).unwrap_or(false))
+                    .map(|(i, _)| i)
+                    .collect();
+                if candidates.is_empty() {
                     return None;
                 }
-                let same: Vec<usize> = self.codes.iter().enumerate().filter(|(_, k)| k.cid == c.cid).map(|(i, _)| i).collect();
-                if same.is_empty() {
-                    return None;
+                let code = *rng.pick(&candidates);
+                let new_cid = self.codes[code].cid.clone();
+                let ne = self.sg.reg.get(&new_cid)?;
+                let h = ne.spec.of_kind(Kind::Migrate).next()?;
+                let cross = new_cid != c.cid;
+                let admin_sender = cross || rng.chance(3, 4);
+                let args = if cross {
+                    // keep the generator's model of who lives where exact: no scripted failure
+                    let keep = self.sg.fail_pm;
+                    self.sg.fail_pm = 0;
+                    let a = self.sg.args_for(rng, &new_cid, h, 98);
+                    self.sg.fail_pm = keep;
+                    a
+                } else {
+                    self.sg.args_for(rng, &new_cid, h, 0)
+                };
+                let sender = if admin_sender { accounts[3].clone() } else { rng.pick(accounts).clone() };
+                if cross {
+                    self.model.retain(|(a, _)| *a != c.addr);
+                    self.model.push((c.addr.clone(), new_cid.clone()));
                 }
-                let h = hs[0];
-                let args = self.sg.args_for(rng, &c.cid, h, 0);
-                let sender = if rng.chance(3, 4) { accounts[3].clone() } else { rng.pick(accounts).clone() };
                 Some(Op::Migrate {
                     target: c.addr.clone(),
                     sender,
-                    code: *rng.pick(&same),
+                    code,
                     msg: Doc::json(&doc_for(h, &args)),
-                    intent: Some(Intent { hid: h.id(), args: Value::Object(args) }),
+                    intent: Some(Intent { hid: h.id(), args: Value::Object(args), cid: new_cid }),
                 })
             }
             17 => {
@@ -158,7 +187,7 @@ impl<'a> TrafficGen<'a> {
                     admin: if rng.chance(1, 2) { Some(accounts[3].clone()) } else { None },
                     funds: vec![],
                     salt: if rng.chance(1, 4) { Some(Doc(rng.bytes(4))) } else { None },
-                    intent: Some(Intent { hid: h.id(), args: Value::Object(args) }),
+                    intent: Some(Intent { hid: h.id(), args: Value::Object(args), cid: String::new() }),
                 })
             }
             _ => Some(Op::Block { dh: rng.range(1, 1000), dt: rng.range(1, 1_000_000) }),
@@ -192,7 +221,7 @@ impl Profile for Dispatch {
         sg.funds_pm = *rng.pick(&[0, 200, 600]);
         sg.typed_pct = *rng.pick(&[0, 50, 100]);
         sg.max_depth = rng.range(0, 3) as u32;
-        let mut tg = TrafficGen { sg, codes: &wp.codes };
+        let mut tg = TrafficGen { sg, codes: &wp.codes, cross_migrate: rng.chance(1, 2), model: vec![] };
         let n = rng.range(3, 14);
         (0..n).filter_map(|_| tg.op(rng)).collect()
     }
@@ -384,7 +413,7 @@ impl Profile for WireFaults {
         sg.regular_only = false;
         sg.max_depth = 1;
         sg.typed_pct = 0;
-        let mut tg = TrafficGen { sg, codes: &wp.codes };
+        let mut tg = TrafficGen { sg, codes: &wp.codes, cross_migrate: false, model: vec![] };
         let n = rng.range(3, 10);
         let mut ops = vec![];
         for _ in 0..n {
@@ -482,7 +511,7 @@ impl Profile for Misdeliver {
         let mut sg = ScriptGen::new(reg, &base.contracts, &base.accounts);
         sg.regular_only = false;
         sg.max_depth = 1;
-        let mut tg = TrafficGen { sg, codes: &wp.codes };
+        let mut tg = TrafficGen { sg, codes: &wp.codes, cross_migrate: false, model: vec![] };
         let accounts = &base.accounts;
         let n = rng.range(3, 10);
         let mut ops = vec![];
